@@ -164,6 +164,7 @@ type Exec struct {
 	cstack       []*ssa.Function
 	pcSet        map[int]bool
 	fmtDepth     int
+	nano         map[int]nanoInfo // natives_state1_time.go: terms known to be s*1e9+n
 }
 
 func (x *Exec) end(kind endKind, format string, args ...any) {
